@@ -1,2 +1,52 @@
-From ZC Require Import Model.Base Model.Names Model.Txt.
-Example C19_placeholder : True. Proof. exact I. Qed.
+(* C19 - service names are validated per RFC 6763 and TXT properties round-trip. Statements only.
+   service_type_name : Model/Names.v (regex classes and trailer strings regenerated from const.py);
+   spec_type         : Spec/Rfc6763Name.v, the documented grammar on the label view of a name. *)
+From ZC Require Import Model.Base Model.Re Model.Utf8 Model.Names Model.Dict Model.Txt Spec.Rfc6763Name
+  Proofs.C19_names Proofs.C19_txt.
+
+(* The validator accepts exactly the documented forms, returns the service type, and rejects everything
+   else with BadTypeInNameException and no other error - for every Unicode text (no lone surrogates). *)
+Theorem C19_validator : forall strict s, scalar_text s = true ->
+  service_type_name strict s =
+  match spec_type strict s with Some t => Ok t | None => Raise BadTypeInName end.
+Proof. exact validator_matches_spec. Qed.
+Print Assumptions C19_validator.
+
+(* A well-formed properties dictionary (distinct keys without '=', items of at most 255 bytes) encodes to
+   TXT bytes that the library decodes to the same keys and values, an empty value read back as no value. *)
+Theorem C19_txt_lib : forall d, wf_props d = true ->
+  exists b, txt_encode d = Ok b /\ txt_decode b = Some (map (fun kv => (fst kv, norm_empty (snd kv))) d).
+Proof. exact txt_roundtrip_lib. Qed.
+Print Assumptions C19_txt_lib.
+
+(* ... and that an independent RFC 6763 section 6 reader decodes to exactly the given dictionary. *)
+Theorem C19_txt_rfc : forall d, wf_props d = true -> forallb (fun kv => nonempty (fst kv)) d = true ->
+  exists b, txt_encode d = Ok b /\ rfc_txt_parse b = Some d.
+Proof. exact txt_roundtrip_rfc. Qed.
+Print Assumptions C19_txt_rfc.
+
+(* Encoding fails exactly when an item exceeds 255 bytes, and then with ValueError. *)
+Theorem C19_txt_err : forall d,
+  (txt_encode d = Raise ValueError <-> existsb (fun kv => negb (item_fits kv)) d = true) /\
+  (forall e, txt_encode d = Raise e -> e = ValueError).
+Proof. exact txt_encode_error. Qed.
+Print Assumptions C19_txt_err.
+
+(* Decoding any TXT byte string terminates with a dictionary (the loop's fuel always suffices). *)
+Theorem C19_txt_decode_total : forall b, exists d, txt_decode b = Some d.
+Proof. exact txt_decode_total. Qed.
+Print Assumptions C19_txt_decode_total.
+
+(* non-vacuity: a dotted, non-ASCII instance in front of a valid type; a subtype; a dict that meets wf_props *)
+Example C19_example_name :
+  scalar_text [77;233;46;120;46;95;104;116;116;112;46;95;116;99;112;46;108;111;99;97;108;46] = true /\
+  service_type_name true [77;233;46;120;46;95;104;116;116;112;46;95;116;99;112;46;108;111;99;97;108;46]
+  = Ok [95;104;116;116;112;46;95;116;99;112;46;108;111;99;97;108;46] /\
+  service_type_name true [95;46;95;116;99;112;46;108;111;99;97;108;46] = Raise BadTypeInName /\
+  service_type_name true [95;97;10;46;95;116;99;112;46;108;111;99;97;108;46] = Raise BadTypeInName.
+Proof. vm_compute. repeat split. Qed.
+
+Example C19_example_txt :
+  wf_props [([97], Some [49]); ([98], None); ([99], Some [])] = true /\
+  txt_encode [([97], Some [49]); ([98], None); ([99], Some [])] = Ok [3;97;61;49;1;98;2;99;61].
+Proof. vm_compute. repeat split. Qed.
